@@ -56,7 +56,10 @@ API:
   spec_text(spec)                -> short human readable rendering (for witnesses)
   collect(root)                  -> (ops, blocks, regions, values) of REAL IR in walk order, read from the raw link fields
   region_blocks(r), block_ops(b), is_inside(node, ancestor)   raw-field helpers for real IR
-  TYPES, ATTRS                   key -> xDSL attribute pools (extend with register_type / register_attr)
+  TYPES, ATTRS                   key -> xDSL attribute pools (extend with register_type / register_attr); the generator
+                                 draws from SAFE_ATTR_KEYS unless Cfg(float_edge_attrs=True); FLOAT_EDGE_FAMILIES lists
+                                 (name, keyA, keyB) pairs of attributes that differ only in NaN payload / sign / zero sign
+                                 (bare and nested in array, dictionary, dense attributes) for single-point mutations
 """
 from __future__ import annotations
 
@@ -68,6 +71,8 @@ from dataclasses import dataclass
 # --------------------------------------------------------------------------------------------- pools
 TYPES: dict = {}
 ATTRS: dict = {}
+SAFE_ATTR_KEYS: list = []        # keys of ATTRS drawn by default
+FLOAT_EDGE_FAMILIES: list = []   # (family name, attr key A, attr key B): attributes differing only in float corner-case bits
 _CTX = None
 TERMINATOR_NAMES = ("test.termop",)
 PLAIN_OP_NAMES = ("test.op", "test.op", "test.pureop", "test.op_with_memread", "test.op_with_memwrite")
@@ -113,6 +118,29 @@ def _init_pools():
         "ty_i32": b.i32, "ty_fn": b.FunctionType.from_lists([b.i32], [b.i64]), "ty_tt": TestType("a"),
         "affmap": b.AffineMapAttr(AffineMap.identity(2)),
     })
+    SAFE_ATTR_KEYS.extend(sorted(A))
+    # float corner cases (NaN payload / quiet bit / sign, signed zero, infinities), bare and nested in array / dictionary /
+    # dense attributes. NOT part of the default pool (generic printing of some of them is a known C04/C06 matter); used
+    # through FLOAT_EDGE_FAMILIES or Cfg(float_edge_attrs=True).
+    import struct
+
+    def bits(x):
+        return struct.unpack("<d", struct.pack("<Q", x))[0]
+    fl = {"nan_q": bits(0x7FF8000000000000), "nan_p1": bits(0x7FF8000000000001), "nan_neg": bits(0xFFF8000000000000),
+          "nan_s": bits(0x7FF0000000000001), "nan_f32p": bits(0x7FF8000020000000), "pzero": 0.0, "nzero": -0.0,
+          "pinf": float("inf"), "ninf": float("-inf")}
+    for k, v in fl.items():
+        A["fe_f64_" + k] = b.FloatAttr(v, b.f64)
+        A["fe_f32_" + k] = b.FloatAttr(v, b.f32)
+        A["fe_arr_" + k] = b.ArrayAttr([b.IntegerAttr(1, b.i32), b.FloatAttr(v, b.f64)])
+        A["fe_dict_" + k] = b.DictionaryAttr({"f": b.FloatAttr(v, b.f64), "g": b.UnitAttr()})
+        A["fe_nest_" + k] = b.ArrayAttr([b.DictionaryAttr({"x": b.ArrayAttr([b.FloatAttr(v, b.f32)])})])
+        A["fe_densearr_" + k] = b.DenseArrayBase.from_list(b.f64, [1.0, v])
+        A["fe_dense_" + k] = b.DenseIntOrFPElementsAttr.from_list(b.TensorType(b.f64, [2]), [v, 1.0])
+    for shape in ("f64", "f32", "arr", "dict", "nest", "densearr", "dense"):
+        for x, y in (("nan_q", "nan_p1"), ("nan_q", "nan_neg"), ("nan_q", "nan_s"), ("nan_q", "nan_f32p"), ("pzero", "nzero"),
+                     ("pinf", "ninf"), ("nan_q", "pinf"), ("nan_q", "nan_q"), ("nzero", "nzero")):
+            FLOAT_EDGE_FAMILIES.append((f"{shape}:{x}/{y}", f"fe_{shape}_{x}", f"fe_{shape}_{y}"))
     _CTX = Context(allow_unregistered=True)
     _CTX.load_dialect(b.Builtin)
     _CTX.load_dialect(Test)
@@ -126,6 +154,8 @@ def register_type(key: str, t):
 def register_attr(key: str, a):
     _init_pools()
     ATTRS[key] = a
+    if key not in SAFE_ATTR_KEYS:
+        SAFE_ATTR_KEYS.append(key)
 
 
 # --------------------------------------------------------------------------------------------- config
@@ -150,6 +180,7 @@ class Cfg:
     p_hint: float = 0.3
     p_attr: float = 0.4
     p_prop: float = 0.3
+    float_edge_attrs: bool = False  # also draw attributes from the float corner-case pool (fe_* keys of ATTRS)
     p_loc: float = 0.0            # an op / a block argument carries a non-default source location (FileLineColLoc)
     p_successor: float = 0.8      # a terminator in a multi-block region branches
     entry_successors: bool = False  # allow branches to the ENTRY block of a region (MLIR forbids it; xDSL's verifier
@@ -368,7 +399,9 @@ class _Gen:
 
     @property
     def _attr_keys(self):
-        return sorted(ATTRS)
+        if self.cfg.float_edge_attrs:
+            return sorted(ATTRS)
+        return SAFE_ATTR_KEYS
 
     def plain_name(self):
         if self.rng.random() < self.cfg.p_unregistered:
@@ -738,7 +771,7 @@ MUTATION_KINDS = ("op_name", "operand_rewire", "operand_swap", "operand_drop", "
 NEUTRAL_KINDS = ("hint", "dict_order")
 
 
-def mutate_spec(rng: random.Random, spec, kind: str | None = None):
+def mutate_spec(rng: random.Random, spec, kind: str | None = None, attr_keys=None):
     """Single-point mutation of a deep copy. Returns (new_spec, kind, note) or None when the kind does not
     apply to this spec. The result may still be isomorphic to the input (e.g. rewiring between two
     indistinguishable values): the caller decides with the canonical form."""
@@ -749,7 +782,7 @@ def mutate_spec(rng: random.Random, spec, kind: str | None = None):
     blocks = list(walk_blocks(s))
     regions = _regions_of(s)
     types = sorted(TYPES)
-    attrs = sorted(ATTRS)
+    attrs = list(attr_keys) if attr_keys is not None else list(SAFE_ATTR_KEYS)
     next_op = max([o["id"] for o in walk_ops(s)] + [-1]) + 1
     next_block = max([b["id"] for b in blocks] + [-1]) + 1
 
